@@ -10,7 +10,6 @@ use std::task::{Context, Poll};
 use std::time::Instant;
 #[cfg(feature = "verif-hooks")]
 use tokio::time::Instant;
-use tokio::sync::Semaphore;
 use tower_service::Service;
 
 /// A service that applies adaptive concurrency limiting.
@@ -20,12 +19,8 @@ use tower_service::Service;
 pub struct AdaptiveService<S, A> {
     inner: S,
     algorithm: Arc<A>,
-    /// Current limit (tracked separately for dynamic adjustment)
-    current_limit: Arc<AtomicUsize>,
     /// In-flight requests counter
     in_flight: Arc<AtomicUsize>,
-    /// Semaphore for limiting concurrency
-    semaphore: Arc<Semaphore>,
 }
 
 impl<S, A> AdaptiveService<S, A>
@@ -34,13 +29,10 @@ where
 {
     /// Create a new adaptive service.
     pub fn new(service: S, algorithm: Arc<A>) -> Self {
-        let initial_limit = algorithm.limit();
         Self {
             inner: service,
             algorithm,
-            current_limit: Arc::new(AtomicUsize::new(initial_limit)),
             in_flight: Arc::new(AtomicUsize::new(0)),
-            semaphore: Arc::new(Semaphore::new(initial_limit)),
         }
     }
 
@@ -68,9 +60,7 @@ where
         Self {
             inner: self.inner.clone(),
             algorithm: Arc::clone(&self.algorithm),
-            current_limit: Arc::clone(&self.current_limit),
             in_flight: Arc::clone(&self.in_flight),
-            semaphore: Arc::clone(&self.semaphore),
         }
     }
 }
@@ -110,20 +100,7 @@ where
 
         let future = self.inner.call(req);
 
-        // Adjust semaphore based on algorithm
-        let algorithm_limit = self.algorithm.limit();
-        let current = self.current_limit.load(Ordering::Relaxed);
-        if algorithm_limit > current {
-            let diff = algorithm_limit - current;
-            self.semaphore.add_permits(diff);
-            self.current_limit.store(algorithm_limit, Ordering::Relaxed);
-        } else if algorithm_limit < current {
-            self.current_limit.store(algorithm_limit, Ordering::Relaxed);
-        }
-
         let algorithm = Arc::clone(&self.algorithm);
-        let semaphore = Arc::clone(&self.semaphore);
-        let current_limit = Arc::clone(&self.current_limit);
 
         AdaptiveFuture {
             inner: Box::pin(async move {
@@ -136,17 +113,6 @@ where
                 match &result {
                     Ok(_) => algorithm.record_success(latency),
                     Err(_) => algorithm.record_failure(),
-                }
-
-                // Adjust semaphore based on new algorithm limit
-                let alg_limit = algorithm.limit();
-                let curr = current_limit.load(Ordering::Relaxed);
-                if alg_limit > curr {
-                    let diff = alg_limit - curr;
-                    semaphore.add_permits(diff);
-                    current_limit.store(alg_limit, Ordering::Relaxed);
-                } else if alg_limit < curr {
-                    current_limit.store(alg_limit, Ordering::Relaxed);
                 }
 
                 result.map_err(AdaptiveError::Service)
